@@ -16,7 +16,7 @@ def CPh.pend : CPh → Bool
 
 /-- the child was elected and is inside `deliver_result()` -/
 def CPh.dlv : CPh → Bool
-  | .dlv1 | .dlv2 => true
+  | .dlv1 | .dlv2 | .dlv3 => true
   | _ => false
 
 /-- the stop callback owns a unit of `refCount_` (between its fetch_add and its fetch_sub) -/
@@ -30,7 +30,7 @@ def SPh.early : SPh → Bool
   | _ => false
 
 def SPh.sd : SPh → Nat
-  | .dlv1 | .dlv2 => 1
+  | .dlv1 | .dlv2 | .dlv3 => 1
   | _ => 0
 
 /-! ### evaluation lemmas for the phase classifiers (so that `simp` never unfolds them on a variable) -/
@@ -52,6 +52,8 @@ def SPh.sd : SPh → Nat
 @[simp] theorem pend_dlv2 : CPh.pend .dlv2 = false := rfl
 @[simp] theorem dlv_dlv2 : CPh.dlv .dlv2 = true := rfl
 @[simp] theorem pend_fin : CPh.pend .fin = false := rfl
+@[simp] theorem pend_dlv3 : CPh.pend .dlv3 = false := rfl
+@[simp] theorem dlv_dlv3 : CPh.dlv .dlv3 = true := rfl
 @[simp] theorem dlv_fin : CPh.dlv .fin = false := rfl
 @[simp] theorem hold_idle : SPh.hold .idle = 0 := rfl
 @[simp] theorem sd_idle : SPh.sd .idle = 0 := rfl
@@ -74,6 +76,9 @@ def SPh.sd : SPh → Nat
 @[simp] theorem hold_ret : SPh.hold .ret = 0 := rfl
 @[simp] theorem sd_ret : SPh.sd .ret = 0 := rfl
 @[simp] theorem hold_fin : SPh.hold .fin = 0 := rfl
+@[simp] theorem hold_dlv3 : SPh.hold .dlv3 = 0 := rfl
+@[simp] theorem sd_dlv3 : SPh.sd .dlv3 = 1 := rfl
+@[simp] theorem early_dlv3 : SPh.early .dlv3 = false := rfl
 @[simp] theorem sd_fin : SPh.sd .fin = 0 := rfl
 
 @[simp] theorem early_idle : SPh.early .idle = true := rfl
@@ -277,8 +282,17 @@ inductive Step (cfg : Config) (s : St) : St → Prop
   | cDestruct (j : Nat) (c : Child) (hc : s.ch[j]? = some c) (hp : c.ph = .dlv1)
       (hb : ¬(s.cbRunning = true ∧ c.exec ≠ stopTid cfg)) :
       Step cfg s (setCh { touch s with cbReg := false } j { c with ph := .dlv2 })
-  | cSignal (j : Nat) (c : Child) (hc : s.ch[j]? = some c) (hp : c.ph = .dlv2) :
-      Step cfg s (setCh (signalSt cfg s c.exec) j { c with ph := .fin })
+  | cSigStop (j : Nat) (c : Child) (hc : s.ch[j]? = some c) (hp : c.ph = .dlv2)
+      (hk : cfg.checksRecv = true) (hr : s.recvStop = true) :
+      Step cfg s (setCh { signalSt s c.exec .done with recvAtDlv := true } j { c with ph := .fin })
+  | cNoStop (j : Nat) (c : Child) (hc : s.ch[j]? = some c) (hp : c.ph = .dlv2)
+      (hk : cfg.checksRecv = true) (hr : s.recvStop = false) :
+      Step cfg s (setCh (touch s) j { c with ph := .dlv3 })
+  | cSignalR (j : Nat) (c : Child) (hc : s.ch[j]? = some c) (hp : c.ph = .dlv2)
+      (hk : cfg.checksRecv = false) :
+      Step cfg s (setCh (signalSt s c.exec (resByDoe s)) j { c with ph := .fin })
+  | cSignal (j : Nat) (c : Child) (hc : s.ch[j]? = some c) (hp : c.ph = .dlv3) :
+      Step cfg s (setCh (signalSt s c.exec (resByDoe s)) j { c with ph := .fin })
   -- the first requester of the operation's own stop source (a child or the stop callback)
   | nTake (t k : Nat) (ck : Child) (hn : Notifier cfg s t) (hcur : s.cur = none)
       (hk : s.ch[k]? = some ck) (h0 : ck.cbst = 0) :
@@ -313,8 +327,14 @@ inductive Step (cfg : Config) (s : St) : St → Prop
   | sDec (hp : s.stopPh = .preDec) (hr : s.refCount ≠ 1) :
       Step cfg s { touch s with refCount := s.refCount - 1, stopPh := .cbRet }
   | sDestruct (hp : s.stopPh = .dlv1) : Step cfg s { touch s with cbReg := false, stopPh := .dlv2 }
-  | sSignal (hp : s.stopPh = .dlv2) :
-      Step cfg s { signalSt cfg s (stopTid cfg) with stopPh := .cbRet }
+  | sSigStop (hp : s.stopPh = .dlv2) (hk : cfg.checksRecv = true) (hr : s.recvStop = true) :
+      Step cfg s { signalSt s (stopTid cfg) .done with recvAtDlv := true, stopPh := .cbRet }
+  | sNoStop (hp : s.stopPh = .dlv2) (hk : cfg.checksRecv = true) (hr : s.recvStop = false) :
+      Step cfg s { touch s with stopPh := .dlv3 }
+  | sSignalR (hp : s.stopPh = .dlv2) (hk : cfg.checksRecv = false) :
+      Step cfg s { signalSt s (stopTid cfg) (resByDoe s) with stopPh := .cbRet }
+  | sSignal (hp : s.stopPh = .dlv3) :
+      Step cfg s { signalSt s (stopTid cfg) (resByDoe s) with stopPh := .cbRet }
   | sCbRet (hp : s.stopPh = .cbRet) : Step cfg s { s with cbRunning := false, stopPh := .ret }
   | sRet (hp : s.stopPh = .ret) : Step cfg s { s with stopPh := .fin }
 
@@ -387,6 +407,16 @@ theorem step_of_stepChild {cfg : Config} {s s' : St} {l : Lbl} {j : Nat}
       · rw [if_neg hb] at h; simp only [List.mem_singleton, Prod.mk.injEq] at h
         exact h.2 ▸ .cDestruct j c hc hp hb
     case dlv2 =>
+      by_cases hk : cfg.checksRecv = true
+      · rw [if_pos hk] at h
+        by_cases hr : s.recvStop = true
+        · rw [if_pos hr] at h; simp only [List.mem_singleton, Prod.mk.injEq] at h
+          exact h.2 ▸ .cSigStop j c hc hp hk hr
+        · rw [if_neg hr] at h; simp only [List.mem_singleton, Prod.mk.injEq] at h
+          exact h.2 ▸ .cNoStop j c hc hp hk (by simpa using hr)
+      · rw [if_neg hk] at h; simp only [List.mem_singleton, Prod.mk.injEq] at h
+        exact h.2 ▸ .cSignalR j c hc hp (by simpa using hk)
+    case dlv3 =>
       simp only [List.mem_singleton, Prod.mk.injEq] at h
       exact h.2 ▸ .cSignal j c hc hp
     case fin => simp at h
@@ -444,6 +474,16 @@ theorem step_of_stepStop {cfg : Config} {s s' : St} {l : Lbl}
     simp only [List.mem_singleton, Prod.mk.injEq] at h
     exact h.2 ▸ .sDestruct hp
   case dlv2 =>
+    by_cases hk : cfg.checksRecv = true
+    · rw [if_pos hk] at h
+      by_cases hr : s.recvStop = true
+      · rw [if_pos hr] at h; simp only [List.mem_singleton, Prod.mk.injEq] at h
+        exact h.2 ▸ .sSigStop hp hk hr
+      · rw [if_neg hr] at h; simp only [List.mem_singleton, Prod.mk.injEq] at h
+        exact h.2 ▸ .sNoStop hp hk (by simpa using hr)
+    · rw [if_neg hk] at h; simp only [List.mem_singleton, Prod.mk.injEq] at h
+      exact h.2 ▸ .sSignalR hp (by simpa using hk)
+  case dlv3 =>
     simp only [List.mem_singleton, Prod.mk.injEq] at h
     exact h.2 ▸ .sSignal hp
   case cbRet =>
@@ -469,19 +509,19 @@ macro_rules
       refine ⟨?_, ?_, ?_, ?_⟩ <;>
       simp only [setCh, signalSt, List.length_set, touch_refCount, touch_zeroed, touch_delivered, touch_stopPh,
         touch_ch, cntP_set $hc, cntD_set $hc,
-        pend_run, pend_claimed, pend_preX, pend_preStop, pend_notifying, pend_preDec, pend_dlv1, pend_dlv2, pend_fin,
-        dlv_run, dlv_claimed, dlv_preX, dlv_preStop, dlv_notifying, dlv_preDec, dlv_dlv1, dlv_dlv2, dlv_fin,
-        hold_idle, hold_begun, hold_cbEnter, hold_preOwnStop, hold_notifying, hold_preDec, hold_dlv1, hold_dlv2, hold_cbRet, hold_ret, hold_fin,
-        early_idle, early_begun, early_cbEnter, early_preOwnStop, early_notifying, early_preDec, early_dlv1, early_dlv2, early_cbRet, early_ret, early_fin,
-        sd_idle, sd_begun, sd_cbEnter, sd_preOwnStop, sd_notifying, sd_preDec, sd_dlv1, sd_dlv2, sd_cbRet, sd_ret, sd_fin,
+        pend_run, pend_claimed, pend_preX, pend_preStop, pend_notifying, pend_preDec, pend_dlv1, pend_dlv2, pend_dlv3, pend_fin,
+        dlv_run, dlv_claimed, dlv_preX, dlv_preStop, dlv_notifying, dlv_preDec, dlv_dlv1, dlv_dlv2, dlv_dlv3, dlv_fin,
+        hold_idle, hold_begun, hold_cbEnter, hold_preOwnStop, hold_notifying, hold_preDec, hold_dlv1, hold_dlv2, hold_dlv3, hold_cbRet, hold_ret, hold_fin,
+        early_idle, early_begun, early_cbEnter, early_preOwnStop, early_notifying, early_preDec, early_dlv1, early_dlv2, early_dlv3, early_cbRet, early_ret, early_fin,
+        sd_idle, sd_begun, sd_cbEnter, sd_preOwnStop, sd_notifying, sd_preDec, sd_dlv1, sd_dlv2, sd_dlv3, sd_cbRet, sd_ret, sd_fin,
         if_true, if_false, Bool.false_eq_true, false_implies, true_implies, forall_const, reduceCtorEq, and_self, and_true, true_and, false_and, and_false, Nat.le_refl, Nat.zero_le, *] at * <;>
       omega))
   | `(tactic| inva_fin) => `(tactic| (
       refine ⟨?_, ?_, ?_, ?_⟩ <;>
       simp only [setCh, List.length_set, signalSt, touch_refCount, touch_zeroed, touch_delivered, touch_stopPh, touch_ch,
-        hold_idle, hold_begun, hold_cbEnter, hold_preOwnStop, hold_notifying, hold_preDec, hold_dlv1, hold_dlv2, hold_cbRet, hold_ret, hold_fin,
-        early_idle, early_begun, early_cbEnter, early_preOwnStop, early_notifying, early_preDec, early_dlv1, early_dlv2, early_cbRet, early_ret, early_fin,
-        sd_idle, sd_begun, sd_cbEnter, sd_preOwnStop, sd_notifying, sd_preDec, sd_dlv1, sd_dlv2, sd_cbRet, sd_ret, sd_fin,
+        hold_idle, hold_begun, hold_cbEnter, hold_preOwnStop, hold_notifying, hold_preDec, hold_dlv1, hold_dlv2, hold_dlv3, hold_cbRet, hold_ret, hold_fin,
+        early_idle, early_begun, early_cbEnter, early_preOwnStop, early_notifying, early_preDec, early_dlv1, early_dlv2, early_dlv3, early_cbRet, early_ret, early_fin,
+        sd_idle, sd_begun, sd_cbEnter, sd_preOwnStop, sd_notifying, sd_preDec, sd_dlv1, sd_dlv2, sd_dlv3, sd_cbRet, sd_ret, sd_fin,
         if_true, if_false, Bool.false_eq_true, false_implies, true_implies, forall_const, reduceCtorEq, and_self, and_true, true_and, false_and, and_false, Nat.le_refl, Nat.zero_le, *] at * <;>
       omega))
 
@@ -519,6 +559,15 @@ theorem invA_step {cfg : Config} {s s' : St} (hi : InvA cfg.n s) (hs : Step cfg 
   | cDestruct j c hc hp hb =>
     have h3 := cntD_pos hc (by simp [hp])
     cases hzz : s.zeroed <;> cases he : s.stopPh.early <;> inva_fin hc
+  | cSigStop j c hc hp hk hr =>
+    have h3 := cntD_pos hc (by simp [hp])
+    cases hzz : s.zeroed <;> cases he : s.stopPh.early <;> inva_fin hc
+  | cNoStop j c hc hp hk hr =>
+    have h3 := cntD_pos hc (by simp [hp])
+    cases hzz : s.zeroed <;> cases he : s.stopPh.early <;> inva_fin hc
+  | cSignalR j c hc hp hk =>
+    have h3 := cntD_pos hc (by simp [hp])
+    cases hzz : s.zeroed <;> cases he : s.stopPh.early <;> inva_fin hc
   | cSignal j c hc hp =>
     have h3 := cntD_pos hc (by simp [hp])
     cases hzz : s.zeroed <;> cases he : s.stopPh.early <;> inva_fin hc
@@ -545,6 +594,9 @@ theorem invA_step {cfg : Config} {s s' : St} (hi : InvA cfg.n s) (hs : Step cfg 
   | sDecLast hp hr => cases hzz : s.zeroed <;> cases he : s.stopPh.early <;> inva_fin
   | sDec hp hr => cases hzz : s.zeroed <;> cases he : s.stopPh.early <;> inva_fin
   | sDestruct hp => cases hzz : s.zeroed <;> cases he : s.stopPh.early <;> inva_fin
+  | sSigStop hp hk hr => cases hzz : s.zeroed <;> cases he : s.stopPh.early <;> inva_fin
+  | sNoStop hp hk hr => cases hzz : s.zeroed <;> cases he : s.stopPh.early <;> inva_fin
+  | sSignalR hp hk => cases hzz : s.zeroed <;> cases he : s.stopPh.early <;> inva_fin
   | sSignal hp => cases hzz : s.zeroed <;> cases he : s.stopPh.early <;> inva_fin
   | sCbRet hp => cases hzz : s.zeroed <;> cases he : s.stopPh.early <;> inva_fin
   | sRet hp => cases hzz : s.zeroed <;> cases he : s.stopPh.early <;> inva_fin
